@@ -118,6 +118,36 @@ def spread_only_cycle_cases(max_len):
     return out
 
 
+ROOT_CYCLE_SCHEMA = CYCLE_SCHEMA.replace("schema { query: Q }", "schema { query: Q mutation: M subscription: S }") + \
+    "type M { o: O bump: Int q: Q }\ntype S { o: O tick: Int }\n"
+
+
+def root_cycle_cases(max_len):
+    """Spread cycles on the ROOT type of a query / mutation / subscription, reached directly from the operation's own
+    selection set (spreads and inline fragments only: nothing of it sits below a field)."""
+    out = []
+    for kind, root in (("query", "Q"), ("mutation", "M"), ("subscription", "S")):
+        for n in range(1, max_len + 1):
+            for body in ("field_and_spread", "spread_only", "via_inline"):
+                frs = []
+                for i in range(n):
+                    nxt = Spread("F%d" % ((i + 1) % n))
+                    if body == "field_and_spread":
+                        sel = [Field("o", [Field("id")]), nxt]
+                    elif body == "spread_only":
+                        sel = [nxt]
+                    else:
+                        sel = [Field("o", [Field("id")]), Inline(root, [nxt])]
+                    frs.append(FragDef("F%d" % i, root, sel))
+                for opsel in ([Spread("F0")], [Inline(root, [Spread("F0")])], [Field("o", [Field("id")], alias="first"), Spread("F0")]):
+                    for order in ("fragments_first", "operation_first"):
+                        op = Op(kind, "Op", opsel)
+                        defs = frs + [op] if order == "fragments_first" else [op] + frs
+                        out.append({"family": "root_spread_cycle", "desc": "%s len=%d body=%s op=%s order=%s" % (kind, n, body, gql.render_doc(Doc([op]))[:40].replace("\n", " "), order),
+                                    "schema": ROOT_CYCLE_SCHEMA, "ext": "graphql", "query": gql.render_doc(Doc(defs))})
+    return out
+
+
 def input_cycle_cases():
     out = []
     kinds = ["%s", "%s!", "[%s]", "[%s!]!"]
@@ -272,6 +302,7 @@ def run(tier):
     cases += cycle_cases(6)
     cases += abstract_hop_cycle_cases(6)
     cases += spread_only_cycle_cases(6)
+    cases += root_cycle_cases(4 if tier == "quick" else 6)
     cases += input_cycle_cases()
     cases += nesting_cases([1, 2, 4, 8, 16, 24, 32, 40, 48, 56, 64] if tier == "quick" else list(range(1, 65)) + [96, 128])
     cases += odd_schema_cases()
@@ -281,7 +312,7 @@ def run(tier):
                    dict(DEFAULT_OPTS, deprecation="deny", mode="derive", struct_ident="Op", operation_name="Op")]
     more = []
     for c in cases:
-        if c["family"] in ("spread_cycle", "spread_cycle_abstract_hop", "spread_only_cycle", "input_cycle", "odd_schema", "odd_json_schema", "no_implementors", "selection_nesting", "selection_nesting_abstract", "inline_nesting", "list_nesting") and "options" not in c:
+        if c["family"] in ("spread_cycle", "spread_cycle_abstract_hop", "spread_only_cycle", "root_spread_cycle", "input_cycle", "odd_schema", "odd_json_schema", "no_implementors", "selection_nesting", "selection_nesting_abstract", "inline_nesting", "list_nesting") and "options" not in c:
             for oi, o in enumerate(OPTION_SETS):
                 more.append(dict(c, options=o, desc=c["desc"] + " [option set %d]" % (oi + 1)))
     cases += more
